@@ -428,6 +428,56 @@ def chained_fit(ctx, ysrc, ytgt, xtgt, first):
     check(tuple(tuple(r) for r in new), f'after set_value on a source cell of Y, {first.upper()} asked for first')
 
 
+DIRECTED_ARRAYS = [
+    # ROW() / COLUMN() without an argument mean the member cell's own row / column
+    ('row-column-without-argument', 'D1:D3', '=A1:A3*ROW()', (1, 4, 9)),
+    ('row-column-without-argument', 'F2:F5', '=ROW()-ROW($F$2)+1', (1, 2, 3, 4)),
+    ('row-column-without-argument', 'H1:K1', '=COLUMN()', (8, 9, 10, 11)),
+    ('row-column-without-argument', 'H3:I4', '=ROW()*10+COLUMN()', ((38, 39), (48, 49))),
+    # IFERROR / IFNA lift over the fallback argument too: the shape of the result is the shape of the array given
+    ('iferror-scalar-with-array-fallback', 'M1:O3', '=IFERROR(A4/B1,A1:B2)',
+     ((0.6, 0.6, '#N/A'), (0.6, 0.6, '#N/A'), ('#N/A', '#N/A', '#N/A'))),
+    ('iferror-scalar-with-array-fallback', 'Q1:S3', '=IFERROR(A4/B2,A1:B2)',
+     ((1, 10, '#N/A'), (2, 0, '#N/A'), ('#N/A', '#N/A', '#N/A'))),
+    ('iferror-scalar-with-array-fallback', 'M5:N6', '=IFNA(A4,A1:B2)', ((6, 6), (6, 6))),
+]
+
+
+def directed_arrays(ctx):
+    from vp.checks.c05 import elements
+    cells = {'A1': 1, 'A2': 2, 'A3': 3, 'B1': 10, 'B2': 0, 'A4': 6}
+    for sheet in ('Sheet1', 'My Sheet'):
+        for tag, target, formula, want in DIRECTED_ARRAYS:
+            spec = {'sheets': [[sheet, cells]], 'names': {}, 'arrays': [[sheet, target, formula]], 'calc': None}
+            rows = wb.range_cells(target)
+            h, w = len(rows), len(rows[0])
+            for members_first in (False, True):
+                comp = wb.compile_mem(spec)
+                ctx.count('directed_array_cases')
+                ctx.case(('directed-array', sheet, target, formula, members_first))
+                grid_ = want if h > 1 and w > 1 else (tuple((x,) for x in want) if w == 1 else (want,))
+                checks = [('range', f'{sheet}!{target}', None)] + [
+                    ('member', f'{sheet}!{rows[i][j]}', grid_[i][j]) for i in range(h) for j in range(w)]
+                if members_first:
+                    checks = checks[1:] + checks[:1]
+                for what, a, exp in checks:
+                    got = wb.outcome(comp.evaluate, a)
+                    ok = got[0] == 'v'
+                    if ok and what == 'range':
+                        try:
+                            el = elements(got[1], h, w)
+                            ok = all(wb.same(el[(i, j)], grid_[i][j]) for i in range(h) for j in range(w))
+                        except Exception:
+                            ok = False
+                    elif ok:
+                        ok = wb.same(got[1], exp)
+                    if not ok:
+                        ctx.violation(f'array-formula-member-not-its-own-element/{tag}',
+                                      f'{{{formula}}} over {sheet}!{target}: {what} {a} = {got!r}, expected '
+                                      f'{want if what == "range" else exp!r}', {'kind': 'directed-arrays'})
+                        break
+
+
 def neighbouring_targets(ctx):
     """two array formulas next to each other (the first text a prefix of the second; the same text twice): a range
     read over both shows each target's own elements, an array formula never reaches into the other target"""
@@ -450,6 +500,7 @@ def neighbouring_targets(ctx):
 def run(ctx):
     if ctx.shard == 0:
         neighbouring_targets(ctx)
+        directed_arrays(ctx)
     rng = ctx.rng
     # ---- (3) an array formula reading the target of another array formula of a different shape
     k = 0
@@ -560,6 +611,9 @@ def _tt(x):
 
 
 def replay(ctx, case):
+    if case.get('kind') == 'directed-arrays':
+        directed_arrays(ctx)
+        return
     if case.get('kind') == 'neighbours':
         neighbouring_targets(ctx)
         return
